@@ -109,30 +109,7 @@ fn doctype_moved(w: &World, st: &Step) -> bool {
     }
 }
 
-/// delete_data whose result is not storable in that node kind (two '-' joined in a comment, ...):
-/// deletion is not validated
-fn delete_joins_markup(w: &World, st: &Step) -> bool {
-    match &st.op {
-        Op::DeleteData { node, off, .. } => {
-            if let Some(m) = w.model.node_slot(*node) {
-                let n = &w.model.nodes[m];
-                if !n.kind.is_chardata() || *off > chars_len(&n.data) {
-                    return false;
-                }
-                match w.model.data_after(m, &st.op) {
-                    Some(d) => !storable(n.kind, &d),
-                    None => false,
-                }
-            } else {
-                false
-            }
-        }
-        _ => false,
-    }
-}
-
 pub const TRIGGERS: &[(&str, Pred)] = &[
     ("factory_unstorable_data", factory_unstorable_data),
     ("doctype_moved", doctype_moved),
-    ("delete_joins_markup", delete_joins_markup),
 ];
